@@ -1,5 +1,6 @@
 use crate::fw::*;
 pub mod c01;
+pub mod c02;
 pub mod c03;
 pub mod c04;
 pub mod c05;
@@ -8,6 +9,7 @@ pub mod c09;
 pub mod c10;
 pub mod c12;
 pub mod c13;
+pub mod c14;
 pub mod c15;
 pub mod c17;
 pub mod c19;
@@ -18,6 +20,7 @@ pub mod c18;
 pub fn dispatch(ctx: &Ctx, findings: &Findings) -> Option<PropReport> {
     Some(match ctx.prop.as_str() {
         "C01" => c01::run(ctx, findings),
+        "C02" => c02::run_prop(ctx, findings),
         "C03" => c03::run_prop(ctx, findings),
         "C04" => c04::run(ctx, findings),
         "C05" => c05::run(ctx, findings),
@@ -26,6 +29,7 @@ pub fn dispatch(ctx: &Ctx, findings: &Findings) -> Option<PropReport> {
         "C10" => c10::run(ctx, findings),
         "C12" => c12::run(ctx, findings),
         "C13" => c13::run(ctx, findings),
+        "C14" => c14::run(ctx, findings),
         "C15" => c15::run(ctx, findings),
         "C17" => c17::run(ctx, findings),
         "C19" => c19::run(ctx, findings),
